@@ -214,6 +214,9 @@ MASS_DELTAS = [0, 1e-2, -1e-2, 1e-3, -1e-3, 5e-4, -5e-4, 1e-4, -1e-4, 1e-5, -1e-
 def gen_mi_mass(rng, F):
     """float32 scores whose mass is 1 + delta for delta in MASS_DELTAS (stored normalised scores, slightly off):
     lambda must still be the SHARE of the kept columns, never the raw sum"""
+    if F == 3 and rng.chance(0.15):
+        # the witness of Props/C19.v skip_normalisation_when_close_to_one_refuted, replayed on the real code
+        return [[Fr(f32(v)).numerator, Fr(f32(v)).denominator] for v in (0.5008, 0.3, 0.2)]
     w = [rng.pick([0, 1, 1, 2, 3, 5, 8]) + rng.random() for _ in range(F)]
     if rng.chance(0.2) and F >= 2:
         w[rng.randrange(F)] = 0.0
@@ -916,7 +919,7 @@ def stats(cases, obss):
          "calls_with_a_single_row": 0, "mi_with_leading_zero": 0, "mi_with_single_nonzero": 0,
          "mi_not_sorted_descending": 0, "beta_at_most_0.01": 0, "beta_at_least_100": 0,
          "mi_mass_exactly_one": 0, "mi_mass_within_1e-3_of_one_but_not_one": 0,
-         "mi_mass_within_1e-4_of_one_but_not_one": 0, "mi_mass_about_1e-2_off_one": 0, "mi_mass_far_from_one": 0,
+         "mi_mass_within_1e-4_of_one_but_not_one": 0, "mi_mass_about_1e-2_off_one": 0, "mi_mass_far_from_one": 0, "mi_is_the_refutation_witness": 0,
          "y_dtype": {}, "num_classes_2": 0, "num_classes_40": 0, "whole_valued_float_targets": 0}
     d["zero_sum_mi_cases"] = sum(1 for c, _ in flatten(cases, obss) if zero_sum_mi(c))
     def spread(c):
@@ -966,6 +969,7 @@ def stats(cases, obss):
             d["mi_mass_within_1e-4_of_one_but_not_one"] += int(0 < off <= Fr(11, 100000))
             d["mi_mass_about_1e-2_off_one"] += int(Fr(5, 1000) < off <= Fr(2, 100))
             d["mi_mass_far_from_one"] += int(off > Fr(1, 10))
+            d["mi_is_the_refutation_witness"] += int([round(float(m), 4) for m in ms] == [0.5008, 0.3, 0.2])
         yd = c.get("y_dtype", "float32" if c["target"] == "scalar_f" else "int64")
         d["y_dtype"][yd] = d["y_dtype"].get(yd, 0) + 1
         d["num_classes_2"] += int(c["target"] == "class" and c["num_classes"] == 2)
@@ -1052,6 +1056,28 @@ def select_term(case, obs, rec):
     return " && ".join([f"sel_ok {C.clist(items)}"] + extra)
 
 
+def share_term(case, obs, rec):
+    """feature mode: the lambda read off the implementation's target (rows where own and partner targets differ by
+    at least 1 in some component) against the executable right-hand side of feature_mode_lambda_is_mi_share"""
+    if case["mode"] != "feature" or case["mi"] is None or zero_sum_mi(case) or sum(fr_of(m) for m in case["mi"]) <= 0:
+        return None
+    tg = targets(case)
+    ym = obs["y"] if case["target"] == "class" else [[v] for v in obs["y"]]
+    rows = []
+    for i in range(case["B"]):
+        p = rec["partner"][i]
+        diff = [c for c in range(len(tg[i])) if abs(tg[i][c] - tg[p][c]) >= 1]
+        if p == i or not diff:
+            continue
+        c0 = diff[0]
+        lam = (fr_of(ym[i][c0]) - tg[p][c0]) / (tg[i][c0] - tg[p][c0])
+        rows.append(f"({C.clist(rec['mask'][i], C.cbool)}, {cq(lam)})")
+    if not rows:
+        return None
+    mi = C.clist([fr_of(m) for m in case["mi"]], cq)
+    return f"share_agrees {cq(rec['tol'])} {mi} {C.clist(rows)}"
+
+
 def foreign_term(case, obs):
     """The oracle found an output entry that is no input entry: at IEEE level no mask bit and no partner row makes
     select32 produce it (evaluates to false unless the model and the bit lookup disagree)."""
@@ -1124,7 +1150,9 @@ def coq_term_one(case, obs):
         yo = f"(YMClass {C.clist(obs['y'], lambda r: C.clist([fr_of(v) for v in r], cq))})"
     else:
         yo = f"(YMScalar {C.clist([fr_of(v) for v in obs['y']], cq)})"
-    return f"(mixup_agrees {x} {y} {nc} {mt} {mi} {dr} {cq(rec['tol'])} {xo} {yo} && {select_term(case, obs, rec)})"
+    sh = share_term(case, obs, rec)
+    return (f"(mixup_agrees {x} {y} {nc} {mt} {mi} {dr} {cq(rec['tol'])} {xo} {yo} && {select_term(case, obs, rec)}"
+            + (f" && {sh}" if sh else "") + ")")
 
 
 def coq_term(case, obs):
@@ -1175,7 +1203,7 @@ def sanity(cases, obss):
               "mi_with_single_nonzero", "mi_not_sorted_descending", "beta_at_most_0.01", "beta_at_least_100",
               "mi_mass_exactly_one", "mi_mass_within_1e-3_of_one_but_not_one",
               "mi_mass_within_1e-4_of_one_but_not_one", "mi_mass_about_1e-2_off_one", "mi_mass_far_from_one",
-              "num_classes_2", "num_classes_40", "whole_valued_float_targets"):
+              "mi_is_the_refutation_witness", "num_classes_2", "num_classes_40", "whole_valued_float_targets"):
         if d[k] == 0:
             probs.append(f"boundary never hit: {k} = 0")
     for yd in ("float32", "float64", "int64", "int32"):
